@@ -1,5 +1,6 @@
 mod attrs_gen;
 mod cfgx;
+mod cold;
 mod common;
 mod corpus_gen;
 mod json;
@@ -423,6 +424,14 @@ fn thrx_main(args: &Args) -> i32 {
         return 2;
     }
     let default_bound = if thorough { 3 } else { 2 };
+    if args.get("cold-exec").is_some() {
+        // child of a cold-start driver: exactly one execution in this fresh process
+        let d = &drivers[lo];
+        let pol = if args.get("rw-policy") == Some("writer-preference") { vsched::RwPolicy::WriterPreference } else { vsched::RwPolicy::ReadersBarge };
+        let prefix: Vec<usize> = args.get("prefix").filter(|p| *p != "-").map(|p| p.split(',').filter_map(|x| x.parse().ok()).collect()).unwrap_or_default();
+        emit("EXEC", cold::cold_exec(d, pol, &prefix));
+        return 0;
+    }
     let max_execs = args.usize("max-execs", if thorough { 3_000_000 } else { 300_000 }) as u64;
     for d in &drivers[lo..hi.min(drivers.len())] {
     if hi - lo > 1 && !d.label.starts_with("T:") {
@@ -431,8 +440,14 @@ fn thrx_main(args: &Args) -> i32 {
     }
     let t0 = std::time::Instant::now();
     let max_bound = args.usize("bound", default_bound);
-    // thread-scope drivers have only a handful of points (operation boundaries): no effective preemption bound
-    let r = thrx::explore_driver(d, &property, max_bound, if d.label.starts_with("T:") { 12 } else { 0 }, max_execs);
+    let r = if cold::is_cold(d) {
+        // registration races: one child process per execution, bound 2 (quick) / 3 (thorough)
+        let idx = drivers.iter().position(|x| x.label == d.label).unwrap();
+        cold::explore_cold(d, idx, &property, thorough, max_bound, max_execs.min(if thorough { 60_000 } else { 6_000 }))
+    } else {
+        // thread-scope drivers have only a handful of points (operation boundaries): no effective preemption bound
+        thrx::explore_driver(d, &property, max_bound, if d.label.starts_with("T:") { 12 } else { 0 }, max_execs)
+    };
     emit(
         "DRIVER",
         J::obj()
@@ -461,6 +476,42 @@ fn thrx_replay(path: &str, property: &str) -> i32 {
     let src = std::fs::read_to_string(path).expect("read replay file");
     let j = json::parse(&src).expect("parse replay file");
     let j = j.get("replay").cloned().unwrap_or(j);
+    if matches!(j.get("cold"), Some(J::Bool(true))) {
+        // every execution of a cold-start driver needs a fresh process: run the child twice
+        let exe = std::env::current_exe().expect("current exe");
+        let sched: Vec<String> = j.get("schedule").and_then(|x| x.as_arr()).unwrap().iter().map(|x| x.as_i64().unwrap().to_string()).collect();
+        let mut outs = Vec::new();
+        for _ in 0..2 {
+            let o = std::process::Command::new(&exe)
+                .args(["thrx", "--property", j.get("property").and_then(|x| x.as_str()).unwrap_or(property), "--tier", j.get("tier").and_then(|x| x.as_str()).unwrap_or("quick"), "--driver", &j.get("driver_index").and_then(|x| x.as_i64()).unwrap_or(0).to_string(), "--cold-exec", "1", "--rw-policy", j.get("rw_policy").and_then(|x| x.as_str()).unwrap_or("readers-barge"), "--prefix", &if sched.is_empty() { "-".to_string() } else { sched.join(",") }])
+                .output()
+                .expect("spawn cold child");
+            outs.push(String::from_utf8_lossy(&o.stdout).lines().find(|l| l.starts_with("@@EXEC ")).map(|l| l[7..].to_string()).unwrap_or_default());
+        }
+        let r = json::parse(&outs[0]).unwrap_or(J::Null);
+        if let Some(a) = r.get("schedule_rendered").and_then(|x| x.as_arr()) {
+            for l in a {
+                println!("{}", l.as_str().unwrap_or(""));
+            }
+        }
+        println!("observed: {}", r.get("observation").and_then(|x| x.as_str()).unwrap_or(""));
+        let mut bad = false;
+        if let Some(fl) = r.get("findings").and_then(|x| x.as_arr()) {
+            for f in fl {
+                let p = f.get("property").and_then(|x| x.as_str()).unwrap_or("");
+                println!("    FINDING {}/{}: {}", p, f.get("monitor").and_then(|x| x.as_str()).unwrap_or(""), f.get("detail").and_then(|x| x.as_str()).unwrap_or(""));
+                if property.is_empty() || p == property {
+                    bad = true;
+                }
+            }
+        }
+        if outs[0] != outs[1] || outs[0].is_empty() {
+            println!("MACHINERY-FAILURE: replay is not deterministic");
+            return 3;
+        }
+        println!("replayed twice (fresh process each) with identical observations; violation reproduced: {bad}");
+        return if bad { 1 } else { 0 };
+    }
     let d = thrx::Driver::from_json(j.get("driver").expect("driver")).expect("driver spec");
     let pol = match j.get("rw_policy").and_then(|x| x.as_str()) {
         Some("writer-preference") => vsched::RwPolicy::WriterPreference,
@@ -502,6 +553,10 @@ fn main() {
     vsched::install_quiet_panic_hook();
     cachelito_core::verif_hooks::install(vsched::clock_now, vsched::atomic_point);
     let argv: Vec<String> = std::env::args().skip(1).collect();
+    if let Some(i) = argv.iter().position(|a| a == "--hash-seed") {
+        // order in which the registries iterate their name sets (hook H3); fixed per process
+        cachelito_core::verif_hooks::set_hash_seed(argv.get(i + 1).and_then(|x| x.parse().ok()).unwrap_or(0));
+    }
     if argv.is_empty() {
         eprintln!("usage: engine <seqx|macx|thrx|pollx> --property <ID> --tier <quick|thorough> [--shard i/n] | --replay <file>");
         std::process::exit(2);
